@@ -36,7 +36,7 @@ Qed.
 Lemma obs_fresh_run19 x : hs_net x <> [] ->
   obs_of_state x (route 0 x a_init) = run19 (hs_net x) (hs_iso x) (hs_rc x) (hs_ccs x).
 Proof.
-  intros NE. unfold route, route_with, do_one_with, do_linkage, do_summary, fresh_sum, obs_of_state, run19. simpl.
+  intros NE. unfold route, route_with, do_one_with, do_linkage, do_summary, fresh_sum, obs_of_state, run19, run19_flag. simpl.
   destruct (hs_net x) as [|e net] eqn:E; [congruence|].
   unfold compute_summary. destruct (complex_graph (e :: net) (hs_iso x)) as [cs arcs]. reflexivity.
 Qed.
